@@ -69,6 +69,13 @@ def run(ctx: Ctx) -> dict:
             ops.append({"op": "iban.from_bban", "cc": cps(cc), "bban": cps(b), "ai": False, "vb": False})
             for dd in range(100):
                 ops.append({"op": "iban.new", "t": cps(f"{cc}{dd:02d}{b}"), "vb": False})
+            if n_bbans % 3 == 0:
+                # the BBAN / country code as a caller may write them (lower case, grouped), with and without
+                # validation of the result: what comes back must still carry the prescribed digits
+                for bb, c2 in ((b.lower(), cc), (" ".join(b[i:i + 4] for i in range(0, len(b), 4)), cc), (b, cc.lower()),
+                               (b.lower(), cc.lower())):
+                    for ai in (False, True):
+                        ops.append({"op": "iban.from_bban", "cc": cps(c2), "bban": cps(bb), "ai": ai, "vb": False})
     import fuzz
     ops = fuzz.extend(ctx, ops, "c02", n_seeds=1200, quick=3000, accept=lambda o: o["op"] == "iban.from_bban")
     events = calls.execute(ctx, ops, "c02")
